@@ -689,10 +689,63 @@ def special_cases_2(acc):
                     f'built again holds {second}', case))
 
 
+def special_cases_3(acc):
+    """(e) two processes hand out ONE persistent schema object (a shared
+    template); one of them carries a schema override: the override reaches
+    that process's variables only, in either build order."""
+    leaf = shapes.leaf
+    for order in (('a', 'b'), ('b', 'a')):
+        for route in ('engine', 'store', 'default_state'):
+            case = {'special': 'shared-schema-template', 'order': order,
+                    'route': route}
+            acc.case(key=('special', 'shared-template', order, route),
+                     outcome='special')
+            template = {'port': {'x': leaf(1), 'y': leaf(2),
+                                 'deep': {'z': leaf(3)}}}
+            procs = {
+                'a': probes.Probe({
+                    'pid': 'a', 'log_states': False, 'schema': template,
+                    'schema_by_reference': True,
+                    '_schema': {'port': {'x': {'_default': 50},
+                                         'deep': {'z': {'_default': 70}}}}}),
+                'b': probes.Probe({
+                    'pid': 'b', 'log_states': False, 'schema': template,
+                    'schema_by_reference': True})}
+            processes = {k: procs[k] for k in order}
+            topology = {k: {'port': (f'store_{k}',)} for k in order}
+            try:
+                if route == 'engine':
+                    eng = Engine(processes=processes, topology=topology,
+                                 emitter={'type': 'null'},
+                                 display_info=False)
+                    tree = probes.pure(eng.state.get_value())
+                elif route == 'store':
+                    tree = probes.pure(generate_state(
+                        processes, topology, {}).get_value())
+                else:
+                    tree = Composite({'processes': processes,
+                                      'topology': topology}).default_state()
+            except Exception as e:  # noqa
+                acc.violate(fw.violation(
+                    'C15.crash', f'shared-template:{type(e).__name__}',
+                    f'{case}: {e!r}', case))
+                continue
+            want = {'store_a': {'x': 50, 'y': 2, 'deep': {'z': 70}},
+                    'store_b': {'x': 1, 'y': 2, 'deep': {'z': 3}}}
+            got = {k: tree.get(k) for k in want}
+            if got != want:
+                acc.violate(fw.violation(
+                    'C15.default', 'override-leaks-through-shared-schema',
+                    f'processes built in order {order} ({route}) from one '
+                    f'schema template, a carries an override: {got}, '
+                    f'expected {want}', case))
+
+
 def run_job(job, acc):
     if job[0] == 'special':
         special_cases(acc)
         special_cases_2(acc)
+        special_cases_3(acc)
         return
     if job[0] == 'conflicts':
         conflict_cases(acc)
@@ -724,6 +777,7 @@ def replay(case):
     if 'special' in case:
         special_cases(acc)
         special_cases_2(acc)
+        special_cases_3(acc)
     elif 'conflict' in case:
         conflict_cases(acc)
     elif 'composite_state' in case:
@@ -732,3 +786,7 @@ def replay(case):
         check_combo((tuple(tuple(c) for c in case['combo']),
                      tuple(case['place']), case['defaults']), acc)
     return [v for exs in acc.viol_examples.values() for v in exs]
+
+
+RULE += (
+    ' Special cases: glob co-declarers (only one gives the default), stores built again after a declared default changed, two processes handing out ONE schema object of which one carries an override.')
